@@ -57,6 +57,8 @@ impl BackendInternal {
             hdr.set_need_reply(true);
         }
         self.sock.send_message(&hdr, body, fds)?;
+        #[cfg(feature = "verif-hooks")]
+        crate::verif::hold("be_req.sent", u32::from(request) as u64);
 
         self.wait_for_ack(&hdr)
     }
